@@ -465,6 +465,49 @@ fn run_bfs(cx: &mut CaseCx, case: &Value) {
   cx.sample(json!({"depth": depth, "states": stats.states, "level_sizes": stats.level_sizes, "merges": stats.merges, "example_history": samples.get(0).map(|p| path_json(p))}));
 }
 
+
+/// SUPPLEMENTARY (free-running schedules, not enumerated): evaluations of one server object from several threads at once
+fn run_concurrent_eval(cx: &mut CaseCx, _case: &Value) {
+  let b = setup(cx);
+  let mut s = b.initial.clone();
+  let _ = s.puncture(2);
+  let _ = s.puncture(128);
+  let inst = Inst { s, punct: [2u8, 128].into_iter().collect() };
+  let other = Inst { s: b.initial.clone(), punct: BTreeSet::new() };
+  for round in 0..6 {
+    let results: Vec<CaseCx> = std::thread::scope(|sc| {
+      let hs: Vec<_> = (0..6usize)
+        .map(|k| {
+          let (inst, other, b) = (&inst, &other, &b);
+          let mut scx = cx.scratch();
+          sc.spawn(move || {
+            getrandom::verif::reset(1000 + k as u64 + 10 * round);
+            for _ in 0..20 {
+              // threads alternate between the punctured server and an unpunctured clone of the same key
+              if k % 2 == 0 {
+                check_instance(&mut scx, 0, inst, b, &[]);
+              } else {
+                check_instance(&mut scx, 1, other, b, &[]);
+              }
+            }
+            scx
+          })
+        })
+        .collect();
+      hs.into_iter().filter_map(|h| h.join().ok()).collect()
+    });
+    for mut r in results {
+      for v in r.viols.iter_mut() {
+        v.key = format!("C14/concurrent/{}", v.key.trim_start_matches("C14/"));
+        v.what = format!("six threads evaluating the same server objects at the same time: {}", v.what);
+      }
+      cx.absorb(r);
+    }
+  }
+  cx.count("concurrent_rounds", 6);
+  cx.nontrivial(1);
+}
+
 /// replay of one recorded history (also used as the "plain unit test" form of a counterexample)
 fn run_history(cx: &mut CaseCx, case: &Value) {
   let path: Vec<Act> = serde_json::from_value(case["history"].clone()).unwrap();
@@ -526,6 +569,13 @@ pub fn spec() -> PropSpec {
         gen: |tier| vec![json!({"depth": if tier.thorough() { 4 } else { 3 }})],
         run: super::sr::run_c14,
         min_counts: &[("engine_agreements", 1)],
+      },
+      Check {
+        name: "concurrent-evaluations (supplementary)",
+        rule: "SUPPLEMENTARY, schedules free-running: six threads evaluate all tags on a punctured server and on an unpunctured clone of the same key at the same time (6 rounds x 20 sweeps): every answer per the instance's own model",
+        gen: |_| vec![json!({})],
+        run: run_concurrent_eval,
+        min_counts: &[("concurrent_rounds", 6)],
       },
       Check {
         name: "fixed-histories",
